@@ -39,7 +39,8 @@ def frame(m):
 
 
 KINDS = ['valid', 'valid', 'valid', 'bad-first-word', 'bad-id-signature', 'bad-second-word',
-         'bad-echo', 'bad-reply-signature', 'truncated', 'empty-id', 'empty-reply']
+         'bad-echo', 'bad-reply-signature', 'truncated', 'empty-id', 'empty-reply',
+         'echo-empty', 'echo-first-line', 'echo-second-line', 'echo-extra-line', 'echo-prefix']
 
 
 def gen_stream(r, kind):
@@ -54,6 +55,16 @@ def gen_stream(r, kind):
         w3 = r.choice([0, 3, 5, 77])
     if kind == 'bad-echo':
         reply = b'OK' + CHALLENGE.encode()[:-1] + b'6'
+    if kind == 'echo-empty':
+        reply = b'OK'
+    if kind == 'echo-first-line':
+        reply = b'OK' + CHALLENGE.split('\n')[0].encode()
+    if kind == 'echo-second-line':
+        reply = b'OK' + CHALLENGE.split('\n')[1].encode()
+    if kind == 'echo-extra-line':
+        reply = b'OK' + CHALLENGE.encode() + b'\nextra: 1'
+    if kind == 'echo-prefix':
+        reply = b'OK' + CHALLENGE.encode()[: r.randrange(1, len(CHALLENGE) - 1)]
     if kind == 'bad-reply-signature':
         reply = b'KO' + CHALLENGE.encode()
     if kind == 'empty-id':
@@ -77,7 +88,13 @@ def deliver(ch, kind, chunks):
     for c in chunks:
         if proto.transport.closed:
             break
-        proto.dataReceived(c)
+        try:
+            proto.dataReceived(c)
+        except Exception as e:  # pylint: disable=broad-except
+            # Twisted logs the failure and drops the connection
+            got.append(('EXC:' + type(e).__name__).encode())
+            proto.transport.closed += 1
+            break
     return {'closed': proto.transport.closed > 0, 'sent': len(proto.transport.written),
             'delivered': list(got)}
 
